@@ -4,6 +4,7 @@
 #include <cstdio>
 #include <cstdlib>
 #include <fcntl.h>
+#include <iostream>
 #include <string>
 #include <unistd.h>
 using namespace MASA;
@@ -15,8 +16,33 @@ template <class S> static long run(int N, const char* scal) {
     if (nm != (e ? "euler_1d" : "heateq_2d_steady_const") || v != (S)(i + 0.5)) { if (bad++ < 5) fprintf(stderr, "BAD <%s> handle_%d of %d: holds %s with %s = %Lg (expected %s, %g)\n", scal, i, N, nm.c_str(), e ? "u_0" : "A_x", (LD)v, e ? "euler_1d" : "heateq_2d_steady_const", i + 0.5); } }
   return bad;
 }
+// re-initialisation matrix: for every ordered pair (A, B) of catalogue solutions the handle is initialised with A and then with B; it must
+// then be indistinguishable from a handle that only ever held B (name, dimension, every parameter of B bit for bit, no parameter of A left)
+#include <fstream>
+#include <map>
+#include <sstream>
+#include <vector>
+template <class S> static std::string snapshot() {
+  std::string nm; masa_get_name<S>(&nm); int d = -1; masa_get_dimension<S>(&d); std::string o = nm + ";" + std::to_string(d) + ";";
+  fflush(stdout); std::cout.flush(); int pfd[2]; if (pipe(pfd)) return o; int saved = dup(1); dup2(pfd[1], 1); masa_display_param<S>(); std::cout.flush(); fflush(stdout); dup2(saved, 1); close(saved); close(pfd[1]);
+  std::string s; char b[65536]; ssize_t n; while ((n = read(pfd[0], b, sizeof b)) > 0) s.append(b, n); close(pfd[0]);
+  std::istringstream is(s); std::string l; while (std::getline(is, l)) { size_t p = l.find(" is set to:"); if (p != std::string::npos) { S v = masa_get_param<S>(l.substr(0, p)); char hb[64]; snprintf(hb, sizeof hb, "%La", (LD)v); o += l.substr(0, p) + "=" + hb + ","; } }
+  return o;
+}
+template <class S> static long pairs(const std::vector<std::string>& names, const char* scal) {
+  long bad = 0; std::map<std::string, std::string> fresh;
+  for (auto& b : names) { masa_init<S>("fresh_" + b, b); fresh[b] = snapshot<S>(); }
+  for (auto& a : names) for (auto& b : names) { std::string h = "p_" + a; masa_init<S>(h, a); masa_init<S>(h, b); std::string got = snapshot<S>();
+    if (got != fresh[b]) { if (bad++ < 8) fprintf(stderr, "BAD <%s> handle initialised with %s and then with %s is not a fresh %s: %.120s ... instead of %.120s ...\n", scal, a.c_str(), b.c_str(), b.c_str(), got.c_str(), fresh[b].c_str()); } }
+  return bad;
+}
 int main(int argc, char** argv) {
   int N = argc > 1 ? atoi(argv[1]) : 300;
+  if (argc > 2) {  // c12_many <N> <file with catalogue names>: the re-initialisation matrix
+    std::vector<std::string> names; std::ifstream f(argv[2]); std::string l; while (std::getline(f, l)) if (!l.empty() && l != "masa_test_function" && l != "masa_uninit") names.push_back(l);
+    { int dn = open("/dev/null", O_WRONLY); int saved = dup(1); dup2(dn, 1); close(dn); long bad = pairs<double>(names, "double") + pairs<LD>(names, "long double"); fflush(stdout); dup2(saved, 1); fprintf(stderr, "TOTAL %zu %ld\n", names.size() * names.size() * 2, bad); }
+    return 0;
+  }
   int dn = open("/dev/null", O_WRONLY); dup2(dn, 1); close(dn);
   long bad = run<double>(N, "double") + run<LD>(N > 2000 ? 2000 : N, "long double");
   fprintf(stderr, "TOTAL %d %ld\n", N, bad);
